@@ -12,6 +12,24 @@ checks = {
  "C03": dict(engine="E2", technique="explicit-state breadth-first search over real tensors (successor = replay + one transposition operation) with a permutation reference model; both build configurations",
    text="BFS over operation sequences (depth 2-4 by rank) whose alphabet is T(p) for EVERY permutation p of the rank, T(), UT, Transpose, Materialize, SafeT(p), RollAxis(a,s,safe) for every a,s, tensor.T and tensor.Transpose, from contiguous, column-major, sliced and step-sliced roots of 6 element widths, ranks 0-5; every state is deduplicated on (metadata, storage bytes, pending) and every transition is compared with the model (permuted logical array, exact restore by UT, storage order and default strides after physical transposition, receiver untouched by the copying forms). Built and run twice: default tags and -tags inplacetranspose.",
    ref="4 C03", note="Trusted: ref.Arr.Permute, At (C01). Recorded findings (column-major data movement, strided vector views, no-op SafeT bookkeeping, two inplacetranspose-only defects) are matched by precondition tags computed from the receiver's state; anything else is a violation."),
+ "C04": dict(engine="E2+E1", technique="bounded-exhaustive enumeration of view states (view-graph BFS) x whole-tensor writes with a full-root frame diff; copy operations x source layouts with two-way write probes",
+   text="Every view state (atlas layouts + view-graph states to depth 2) of every element type over an identity-coded parent x every whole-tensor write (Memset, Zero, SetAt sweep, Copy, CopyTo, physical transpose, unsafe unary/binary ops, reuse, incr): the WHOLE parent backing is diffed - cells in the view's image must hold the model values, every other cell must be untouched. Every copy operation (Clone, Materialize, SafeT, Copy, CopyTo, ShallowClone, ToMat64/FromMat64, native.*) x every row-major-rooted source layout: logical equality by At sweep, storage disjointness by write probes in both directions.",
+   ref="4 C04", note="Trusted: the model's cell maps (C02/C03), At/SetAt (C01). Column-major roots are exercised by C16. CopyTo is documented as a raw storage copy and judged accordingly."),
+ "C05": dict(engine="E2", technique="explicit-state BFS over the iterator state machine of the real iterator for every access pattern, every mask over <=N elements, and every layout pair/triple for the multi-iterator, against a position/direction model",
+   text="For every access pattern reachable from the shape set (atlas layouts + view graph) the real FlatIterator is driven through a BFS over {Next, NextValidity, NextValid, NextInvalid, Reset, SetReverse, SetForward, Start} to depth size+3 with dedup on (model position, direction, private cursor); yielded offsets, Coord and Done are compared with the model in every state. Masked iterators: every mask over <=6 (quick) / <=8 (thorough) elements. Multi-iterators: every ordered pair and triple of layouts, with a mid-way Reset.",
+   ref="4 C05", note="Trusted: the model's cell maps; the exported private cursor is only used as dedup key. Coord is not judged on an exhausted iterator."),
+ "C06": dict(engine="E1", technique="bounded-exhaustive enumeration of the operation x element type x operand form x layout x layout x shape x value-set matrix against Go's own operators (generic reference semantics), every coordinate compared",
+   text="Add/Sub/Mul/Div/Mod/Pow/MinBetween/MaxBetween x 14 numeric types x {TT, TS, ST, scalar-as-Tensor on either side} x L5 x L5 layouts x 13 (18 thorough) shapes x {injective, edge} value sets x {function, method}, plus the refusal space (unequal shapes, element-type pairs, unsupported types). Each result coordinate is compared bit-exactly with Go's operator (tolerance only for Pow/Mod on floats and complex division); operands must be unchanged; (op,type) pairs the library refuses on the plainest input must be refused everywhere.",
+   ref="4 C06", note="Trusted: ref.Arith (one generic definition per operator), math/math32/cmplx for Pow and Mod, the layout atlas (operands are read back before use)."),
+ "C07": dict(engine="E1", technique="bounded-exhaustive enumeration of operation x option mode x destination layout x operand layout matrix with returned-identity, value and frame oracles",
+   text="Every arithmetic, comparison and unary operation (+Clamp) x {safe, unsafe, reuse (contiguous, sliced, step-sliced, transposed, == operand a, == operand b, other shape, wrong size), incr (contiguous, sliced)} x operand forms x L5 layouts x element type representatives (all 14 thorough): values must equal the safe-mode model (incr: destination + result), the returned tensor must be the designated one, every other tensor and every parent cell outside the destination's image must be unchanged.",
+   ref="4 C07", note="As C06. Recorded findings are matched by exact defect models (op(a,a) for reuse==b, plain result for min/max incr) or by the destination's window-size precondition."),
+ "C11": dict(engine="E1", technique="bounded-exhaustive enumeration of comparison x element type x form x result mode x layout x layout x shape x value set against Go's comparison operators",
+   text="6 comparisons x all 18 element types (ordered / comparable as applicable) x {TT,TS,ST} x {bool, same-type, in place, reuse bool, reuse same-type} x L5 x L5 x shapes x {injective, ties, edge incl. NaN} x {function, method}, plus refusal of unordered/mismatched types and unequal shapes.",
+   ref="4 C11", note="As C06."),
+ "C12": dict(engine="E1", technique="bounded-exhaustive enumeration of unary operation x element type x layout x mode x shape x value set against the scalar function; Apply with a typed function of every element type",
+   text="14 unary operations + Clamp x all 18 element types (unsupported ones must be refused everywhere) x L5 x {safe, unsafe, reuse, incr, view destinations} x shapes x 4 value sets incl. 0, negatives, extremes, non-finite; Apply(fn) for a func(T) T of every element type x layouts x modes and wrong-signature functions.",
+   ref="4 C12", note="As C06; float32 functions are compared against math32 (the float32 maths routines), float64 against package math, both with a small relative tolerance."),
 }
 pending = {}
 for i in range(2,21):
